@@ -287,6 +287,17 @@ def cd_case(rep, drv, rng):
 	hi = {n: lo[n] + float(F(rng.randint(4, 60), 2)) for n in node_ids}
 	init = {n: lo[n] + (hi[n] - lo[n]) * rng.choice([0, .25, .5, 1]) for n in node_ids}
 	groups = [set(node_ids[:2])] if N >= 2 and rng.random() < .3 else None
+	# a pinned stage: a degenerate search interval (lo = hi, or thinner than the line-search tolerance) is a legal box; and the start need not
+	# lie in the box (it is chosen automatically when no initial solution is given)
+	start_kind = rng.choice(['inside', 'inside', 'inside', 'automatic', 'outside'])
+	if rng.random() < .3:
+		n_pin = rng.choice(node_ids)
+		hi[n_pin] = lo[n_pin] + rng.choice([0.0, 0.0, 4e-6])
+		init[n_pin] = lo[n_pin]
+		rep.count('cd:pinned-stage')
+	if start_kind == 'outside':
+		n_out = rng.choice(node_ids); init[n_out] = hi[n_out] + rng.choice([1.5, 7.0])
+	rep.count('cd:start-' + start_kind)
 	if groups:
 		for n in node_ids[:2]:
 			lo[n] = lo[node_ids[0]]; hi[n] = hi[node_ids[0]]; init[n] = init[node_ids[0]]
@@ -304,13 +315,13 @@ def cd_case(rep, drv, rng):
 	try:
 		with warnings.catch_warnings():
 			warnings.simplefilter('ignore')
-			S, cost = meio_by_coordinate_descent(net, initial_solution=dict(init), search_lo=dict(lo), search_hi=dict(hi), groups=groups,
+			S, cost = meio_by_coordinate_descent(net, initial_solution=(None if start_kind == 'automatic' else dict(init)), search_lo=dict(lo), search_hi=dict(hi), groups=groups,
 												  objective_function=obj, tol=1e-4, line_search_tol=1e-5)
 	except Exception as e:
 		S, cost = None, err_enum(e)
 	finally:
 		optimization.golden_section_search = orig
-	case = {'nodes': node_ids, 'obj': spec, 'lo': lo, 'hi': hi, 'init': init, 'groups': [sorted(g) for g in groups] if groups else None}
+	case = {'nodes': node_ids, 'obj': spec, 'lo': lo, 'hi': hi, 'init': init, 'start': start_kind, 'groups': [sorted(g) for g in groups] if groups else None}
 	rep.case('meio_by_coordinate_descent', case, nontrivial=len(recs) > 1)
 	bad = []
 	if S is None:
@@ -330,7 +341,7 @@ def cd_case(rep, drv, rng):
 				L += 2 * float(F(spec['a'][i])) * max(abs(lo[n] - t), abs(hi[n] - t)) + sum(abs(float(F(c))) * max(abs(hi[m]) for m in node_ids) for a_, b_, c in spec['cross'])
 			else:
 				L += max(float(F(spec['p'][i])), float(F(spec['h'][i])))
-		if cost > start + L * 1e-5 + 1e-9:
+		if start_kind == 'inside' and cost > start + L * 1e-5 + 1e-9:
 			bad.append('result (cost %r) is worse than the starting vector (cost %r) by more than the line-search resolution allows (%g)' % (cost, start, L * 1e-5))
 		if groups and len({S[n] for n in groups[0]}) != 1:
 			bad.append('grouped nodes do not share one level')
